@@ -109,17 +109,25 @@ struct FileInfo {
   /// Check if the FileInfo corresponds to a directory.
   bool isDirectory() const;
 
+  /// Check if both records describe an object of the same type (regular file,
+  /// directory, symbolic link, ...).
+  bool hasSameType(const FileInfo& rhs) const;
+
   bool operator==(const FileInfo& rhs) const {
-    // The mode is deliberately not compared, but it is what tells an existing
-    // object from the all-zero record of a missing one when every other field
-    // is zero (an empty file with a zero timestamp seen through a file system
-    // which clears the device and inode): those two are never equal.
+    // The permission bits of the mode are deliberately not compared, but the
+    // mode is what tells an existing object from the all-zero record of a
+    // missing one when every other field is zero (an empty file with a zero
+    // timestamp seen through a file system which clears the device and inode),
+    // and a symbolic link from a regular file whose content is the link's
+    // target string (equal size and checksum in checksum-only mode): those are
+    // never equal.
     return (device == rhs.device &&
             inode == rhs.inode &&
             size == rhs.size &&
             modTime == rhs.modTime &&
             checksum == rhs.checksum &&
-            isMissing() == rhs.isMissing());
+            isMissing() == rhs.isMissing() &&
+            hasSameType(rhs));
   }
 
   bool operator!=(const FileInfo& rhs) const {
